@@ -560,7 +560,7 @@ func (prog Progress) walk_transform_iterateList(n datamodel.Node, s selector.Sel
 					v = loaded
 				}
 
-				next, err := progNext.WalkTransforming(v, sNext, fn)
+				next, err := progNext.walkTransforming(v, sNext, fn)
 				if err != nil {
 					return nil, err
 				}
@@ -636,7 +636,7 @@ func (prog Progress) walk_transform_iterateMap(n datamodel.Node, s selector.Sele
 					v = loaded
 				}
 
-				next, err := progNext.WalkTransforming(v, sNext, fn)
+				next, err := progNext.walkTransforming(v, sNext, fn)
 				if err != nil {
 					return nil, err
 				}
